@@ -179,7 +179,7 @@ func (s *c11State) callback(src int, period int) tabular.PropertyCallback {
 		}
 		e := s.raise(src, what)
 		s.expect(e, s.dest)
-		if ownAPI {
+		if ownAPI || (n+src)%4 == 0 { // some sources always record directly, the others do so on every fourth finding (one source, both channels)
 			switch x := o.(type) {
 			case *tabular.Row:
 				s.c.Rec.Count("errors_recorded_from_inside_a_callback_through_the_live_row's_AddError", 1)
@@ -189,6 +189,13 @@ func (s *c11State) callback(src int, period int) tabular.PropertyCallback {
 				s.c.Rec.Count("errors_recorded_from_inside_a_callback_through_the_live_table's_AddError", 1)
 				x.AddError(e.err)
 				return nil
+			case *tabular.Cell:
+				// a cell-targeted callback of an application that holds on to its table records there
+				if s.dest == nil {
+					s.c.Rec.Count("errors_recorded_from_inside_a_cell_callback_on_the_table_directly", 1)
+					s.t.AddError(e.err)
+					return nil
+				}
 			}
 		}
 		return e.err
